@@ -42,7 +42,17 @@ func (k Keeper) GetRootAddr(ctx sdk.Context) (sdk.AccAddress, error) {
 }
 
 func (k Keeper) senderHasPermission(sender string, root string) error {
-	if sender != root {
+	// Compare the accounts, not the spellings: a bech32 string is valid in lower
+	// and in upper case.
+	senderAddr, err := sdk.AccAddressFromBech32(sender)
+	if err != nil {
+		return err
+	}
+	rootAddr, err := sdk.AccAddressFromBech32(root)
+	if err != nil {
+		return err
+	}
+	if !rootAddr.Equals(senderAddr) {
 		return fmt.Errorf(`message must be sent by root user. root: "%s", sender: "%s"`,
 			root, sender,
 		)
